@@ -6,6 +6,7 @@ import (
 	"os"
 	"path/filepath"
 	"sort"
+	"strconv"
 	"strings"
 	"time"
 
@@ -104,6 +105,7 @@ func cmdRun(args []string) {
 	nomerge := fs.Bool("nomerge", false, "")
 	backend := fs.String("backend", "z3", "")
 	dbg := fs.Bool("debugpanic", false, "")
+	params := fs.String("params", "", "k=v,k=v")
 	fs.Parse(args)
 	rest := fs.Args()
 	if len(rest) < 2 {
@@ -127,8 +129,15 @@ func cmdRun(args []string) {
 	cfg.Lazy = *lazy
 	cfg.NoMerge = *nomerge
 	cfg.Backend = *backend
+	cfg.Params = map[string]int{}
 	if *dbg {
-		cfg.Params = map[string]int{"debugpanic": 1}
+		cfg.Params["debugpanic"] = 1
+	}
+	for _, kv := range strings.Split(*params, ",") {
+		if i := strings.Index(kv, "="); i > 0 {
+			n, _ := strconv.Atoi(kv[i+1:])
+			cfg.Params[kv[:i]] = n
+		}
 	}
 	res := sym.Explore(prog, cfg)
 	printResult(res)
@@ -162,4 +171,3 @@ func printResult(res *sym.HarnessResult) {
 		fmt.Printf("  note x%d: %s\n", c, n)
 	}
 }
-
